@@ -39,9 +39,17 @@ Proof.
 Qed.
 Print Assumptions C17_encapsulate_current_code.
 
-(* The refusal predicate looks at inherited methods too (`accessor in pyclass`): a class whose base class defines
-   get_x is refused (and is outside [side], which also asks for programs without base classes: Obj's semantics
-   has no inheritance, such projects are covered by the execution oracle and the refusal comparison only). *)
+(* Inheritance: Obj looks a method up in the class and then in its base class (one level; [side] asks that a base
+   class has no base).  The refusal predicate looks at inherited methods too (`accessor in pyclass`): a class
+   whose base class defines get_x is refused and outside [side]; a class inheriting an unrelated method is inside
+   the domain of the theorems (C17_inheritance_example). *)
+Example C17_inheritance_example :
+  side w_cfg_paren w_inherit_ok = true /\
+  output_of (run (is_instance 1) w_inherit_ok 30 [] ([], [])) = Some [VInt 10; VInt 8; VInt 25] /\
+  output_of (run (is_instance 1) (tP w_cfg_paren w_inherit_ok) 96 [] ([], [])) = Some [VInt 10; VInt 8; VInt 25].
+Proof. exact inherit_example. Qed.
+Print Assumptions C17_inheritance_example.
+
 Example C17_inherited_accessor_refused :
   enc_refuses w_cfg w_inherit = true /\ side w_cfg w_inherit = false.
 Proof. exact inherited_refused. Qed.
@@ -239,3 +247,52 @@ Theorem C17_read_classified_as_write_refuted :
   is_written w_misread_src {| o_start := 7; o_end := 8; o_prim := 5; o_tuple := false; o_line_end := 14; o_rhs_primary := true |} = false.
 Proof. exact misread_refuted. Qed.
 Print Assumptions C17_read_classified_as_write_refuted.
+
+(* ------------------------------------------------------------------------------------------------
+   LocalToField and MethodObject (coq/C17/Local.v; compared with rope's parsed result and rope's refusal on
+   every generated case, MethodObject results are also run in Obj against CPython's output).
+
+   NOT PROVED (kept visible):
+     C17_local_to_field : field name not used as an attribute anywhere, method not re-entered ->
+                          run (local_to_field c m v P) and run P print the same
+     C17_method_object  : run (method_object nm u P) and run P print the same
+   Both need a simulation up to extra attributes / extra objects in the heap (locations shift after the
+   allocation of the method object), which the forward/reverse proofs above (equal heaps) do not provide. *)
+From RopeVerif.C17 Require Import Local LocalProofs.
+
+(* LocalToField is accepted exactly for an assigned, non-parameter local of a method with a first parameter
+   (_is_a_method_local); everything else -- parameters, locals of plain functions, globals -- is refused. *)
+Theorem C17_local_to_field_refusal :
+  forall P u v,
+    l2f_refuses P u v = false <->
+    exists c m cd d, u = UMethod c m /\ find_c (p_classes P) c = Some cd /\ find_m (c_methods cd) m = Some d /\
+      existsb (N.eqb v) (m_params d) = false /\
+      (exists l, m_body d = BCode l /\ existsb (assigns v) l = true) /\ m_params d <> [].
+Proof. exact l2f_accepts_iff. Qed.
+Print Assumptions C17_local_to_field_refusal.
+
+Example C17_local_to_field_example :
+  l2f_refuses (w_l2f 21) (UMethod 1 13) 21 = false /\
+  l2f_refuses (w_l2f 21) (UMethod 1 13) 12 = true /\ l2f_refuses (w_l2f 21) UMain 8 = true /\
+  output_of (run tt_chk (w_l2f 21) 30 [] ([], [])) = Some [VInt 7; VInt 1] /\
+  output_of (run tt_chk (local_to_field 1 13 21 (w_l2f 21)) 30 [] ([], [])) = Some [VInt 7; VInt 1].
+Proof. exact l2f_example. Qed.
+Print Assumptions C17_local_to_field_example.
+
+(* Open finding C17-l2f-clash (findings/C17-l2f-clash.json): a local spelled like a field is not refused and
+   overwrites the field. *)
+Theorem C17_local_to_field_clash_refuted :
+  l2f_refuses (w_l2f 2) (UMethod 1 13) 2 = false /\
+  output_of (run tt_chk (w_l2f 2) 30 [] ([], [])) = Some [VInt 7; VInt 1] /\
+  output_of (run tt_chk (local_to_field 1 13 2 (w_l2f 2)) 30 [] ([], [])) = Some [VInt 12; VInt 6].
+Proof. exact l2f_clash_refuted. Qed.
+Print Assumptions C17_local_to_field_clash_refuted.
+
+Example C17_method_object_example :
+  (exists P', method_object w_names (UMethod 1 13) (w_l2f 21) = Some P' /\
+              output_of (run tt_chk P' 40 [] ([], [])) = output_of (run tt_chk (w_l2f 21) 30 [] ([], []))) /\
+  (exists P', method_object w_names (UFunc 9) w_mo_fun = Some P' /\
+              output_of (run tt_chk P' 40 [] ([], [])) = Some [VInt 5; VInt 15] /\
+              output_of (run tt_chk w_mo_fun 30 [] ([], [])) = Some [VInt 5; VInt 15]).
+Proof. exact method_object_example. Qed.
+Print Assumptions C17_method_object_example.
